@@ -205,7 +205,14 @@ impl RandState<'_> {
                     self.0.update_stats("size");
                     Some(std::cmp::max(0, self.0.config.size.unwrap_or(0)) as usize / elem_size)
                 });
-                let len = arbitrary_len(u, width)?;
+                // like opt and variant: once the depth or size budget is used up, take the smallest value
+                let len = if self.0.config.depth.is_some_and(|d| d <= 0)
+                    || self.0.config.size.is_some_and(|s| s <= 0)
+                {
+                    0
+                } else {
+                    arbitrary_len(u, width)?
+                };
                 let mut vec = Vec::with_capacity(len);
                 for _ in 0..len {
                     let e = self.any(u, t)?;
@@ -229,18 +236,24 @@ impl RandState<'_> {
                 IDLValue::Record(res)
             }
             TypeInner::Variant(fs) => {
-                let choices = fs
+                // `None` = the case is recursive (no finite size)
+                let choices: Vec<Option<usize>> = fs
                     .iter()
-                    .map(|Field { ty, .. }| size(self.0.env, ty).unwrap_or(MAX_DEPTH));
+                    .map(|Field { ty, .. }| size(self.0.env, ty))
+                    .collect();
                 self.0.update_stats("size");
                 self.0.update_stats("depth");
                 let sizes: Vec<_> = if self.0.config.depth.is_some_and(|d| d <= 0)
                     || self.0.config.size.is_some_and(|s| s <= 0)
                 {
-                    let min = choices.clone().min().unwrap_or(0);
-                    choices.map(|d| if d > min { 0 } else { d }).collect()
+                    // only the smallest finite case: a recursive case would never terminate
+                    let min = choices.iter().flatten().min().copied();
+                    choices
+                        .iter()
+                        .map(|d| if d.is_some() && *d == min { std::cmp::max(1, d.unwrap_or(1)) } else { 0 })
+                        .collect()
                 } else {
-                    choices.collect()
+                    choices.iter().map(|d| d.unwrap_or(MAX_DEPTH)).collect()
                 };
                 let idx = arbitrary_variant(u, &sizes)?;
                 let Field { id, ty } = &fs[idx];
@@ -298,7 +311,7 @@ fn size_helper(env: &TypeEnv, seen: &mut HashSet<String>, t: &Type) -> Option<us
     Some(match t.as_ref() {
         Var(id) => {
             if seen.insert(id.to_string()) {
-                let ty = env.rec_find_type(id).unwrap();
+                let ty = env.rec_find_type(id).ok()?;
                 let res = size_helper(env, seen, ty)?;
                 seen.remove(id);
                 res
